@@ -466,7 +466,16 @@ func ruleCandidate(c *eng.Ctx) {
 					okSrc = false
 					return
 				}
-				ne := eng.CmpEdges(fn, eng.Same(el[0]), eng.Call(0, "server.partition.GetLeader"), eng.NE)
+				// the value compared is this element: the same load, or another load of the same slot (go/ssa does not share
+				// the two reads of isr[i] in `if isr[i] != leader { append(…, isr[i]) }`)
+				sameElem := func(v ssa.Value) bool {
+					if eng.Same(el[0])(v) {
+						return true
+					}
+					ib := indexOfLoad(eng.Strip(v))
+					return ib != nil && ib.X == ia.X && ib.Index == ia.Index
+				}
+				ne := eng.CmpEdges(fn, sameElem, eng.Call(0, "server.partition.GetLeader"), eng.NE)
 				g, _ := eng.GuardedBy(fn, call, ne)
 				if !g || len(ne) == 0 {
 					okSrc = false
